@@ -47,6 +47,21 @@ def main(argv):
     if cmd == 'check':
         from . import runner
         return runner.check(argv[1], _opt(argv, '--tier', 'quick'))
+    if cmd == 'checkall':
+        # developer aid: evaluate every claimed property's rules on the current tree in one process; print failures only
+        import json, os
+        from . import runner
+        man = json.load(open(os.path.join(runner.VERIF, 'MANIFEST.json')))
+        bad = 0
+        for chk in man['checks']:
+            p = chk['property_id']
+            ctx, _ = runner.run_rules(p, _opt(argv, '--config', 'rel'))
+            fails = [r for r in ctx.results if r['verdict'] == 'fail']
+            print('%s: %d results, %d failing' % (p, len(ctx.results), len(fails)))
+            for r in fails:
+                bad += 1
+                print('    %s [%s] %s: %s' % (r['rule'], r['fn'][-60:], r.get('construct'), r['detail'][:200]))
+        return 1 if bad else 0
     if cmd == 'explain':
         from . import runner
         return runner.explain(argv[1])
